@@ -81,6 +81,7 @@ func runC07(c *Ctx) {
 		return
 	}
 	info := pk.TypesInfo
+	c07Field, c07Setter, c07Reader = c07OverrideNames(p, pk)
 	nodeIface := lookupIface(pa, "Node")
 	termIface := lookupIface(pa, "TerminalNode")
 	compIface := lookupIface(pa, "CompositeNode")
@@ -272,7 +273,7 @@ func runC07(c *Ctx) {
 			consults := false
 			ast.Inspect(fr.Decl.Body, func(m ast.Node) bool {
 				if c2, ok := m.(*ast.CallExpr); ok && len(c2.Args) == 1 {
-					if f2 := Callee(info, c2); f2 != nil && f2.Name() == "nodeInfo" && exprString(c2.Args[0]) == want {
+					if f2 := Callee(info, c2); f2 != nil && f2.Name() == c07Reader && exprString(c2.Args[0]) == want {
 						consults = true
 					}
 				}
@@ -328,7 +329,7 @@ func runC07(c *Ctx) {
 			consults := false
 			ast.Inspect(fr.Decl.Body, func(m ast.Node) bool {
 				if c2, ok := m.(*ast.CallExpr); ok && len(c2.Args) == 1 {
-					if f2 := Callee(info, c2); f2 != nil && f2.Name() == "nodeInfo" && exprString(c2.Args[0]) == want {
+					if f2 := Callee(info, c2); f2 != nil && f2.Name() == c07Reader && exprString(c2.Args[0]) == want {
 						consults = true
 					}
 				}
@@ -619,6 +620,8 @@ func nodeChildFields(st *types.Struct, nodeIface *types.Interface, prefix string
 // c07FieldUses classifies every selection of a child field of a protocompile/ast node type inside bufformat:
 // written = the selected value (or an element of it, or a variable bound to it) is an argument of a call to a
 // function of the package; tested = any other use.
+var c07Field, c07Setter, c07Reader string
+
 // c07PerFn: "func/param" -> child fields of the parameter's node that the function hands to writers itself.
 var c07PerFn map[string]map[string]bool
 
@@ -1061,9 +1064,9 @@ func c07OverrideKeys(c *Ctx, pk, pa *packages.Package, nodeIface, termIface *typ
 	c.Rule(rule, "a trailing-comment override is keyed by a node whose comment info a writer consults", 3)
 	p := c.P
 	info := pk.TypesInfo
-	set := p.Func(pkgFormat, "formatter.setTrailingComments")
-	if set == nil {
-		c.Fail(rule, "anchor", token.NoPos, "formatter.setTrailingComments not found")
+	set := p.Func(pkgFormat, "formatter."+c07Setter)
+	if set == nil || c07Setter == "" {
+		c.Fail(rule, "anchor", token.NoPos, "no method of the formatter stores into a map[ast.Node]ast.Comments field")
 		return
 	}
 	// all concrete node types
@@ -1173,7 +1176,7 @@ func c07OverrideKeys(c *Ctx, pk, pa *packages.Package, nodeIface, termIface *typ
 		g := p.CFGOf(set.Decl.Body, info)
 		ast.Inspect(set.Decl.Body, func(n ast.Node) bool {
 			if as, ok := n.(*ast.AssignStmt); ok && len(as.Lhs) == 1 {
-				if ix, ok := ast.Unparen(as.Lhs[0]).(*ast.IndexExpr); ok && strings.HasSuffix(exprString(ix.X), "overrideTrailingComments") {
+				if ix, ok := ast.Unparen(as.Lhs[0]).(*ast.IndexExpr); ok && strings.HasSuffix(exprString(ix.X), c07Field) {
 					c.Ob(rule, "store-after-normalisation", as.Pos(), !g.Reachable(as, descend), true, "the override is stored after the descent to the last token, never before it")
 				}
 			}
@@ -1187,7 +1190,7 @@ func c07OverrideKeys(c *Ctx, pk, pa *packages.Package, nodeIface, termIface *typ
 				if !ok || len(call.Args) != 2 {
 					return true
 				}
-				if fn := Callee(info, call); fn == nil || fn.Name() != "setTrailingComments" || fn.Pkg() != pk.Types {
+				if fn := Callee(info, call); fn == nil || fn.Name() != c07Setter || fn.Pkg() != pk.Types {
 					return true
 				}
 				for _, x := range implementers(info.TypeOf(call.Args[0])) {
@@ -1215,7 +1218,7 @@ func c07OverrideKeys(c *Ctx, pk, pa *packages.Package, nodeIface, termIface *typ
 			if !ok || len(call.Args) != 2 {
 				return true
 			}
-			if fn := Callee(info, call); fn == nil || fn.Name() != "setTrailingComments" || fn.Pkg() != pk.Types {
+			if fn := Callee(info, call); fn == nil || fn.Name() != c07Setter || fn.Pkg() != pk.Types {
 				return true
 			}
 			c.CallSites++
@@ -1266,7 +1269,7 @@ func c07OverrideKeys(c *Ctx, pk, pa *packages.Package, nodeIface, termIface *typ
 			continue
 		}
 		ast.Inspect(fr.Decl.Body, func(n ast.Node) bool {
-			if sel, ok := n.(*ast.SelectorExpr); ok && sel.Sel.Name == "overrideTrailingComments" {
+			if sel, ok := n.(*ast.SelectorExpr); ok && sel.Sel.Name == c07Field {
 				if _, isKV := p.Parent(sel).(*ast.KeyValueExpr); !isKV {
 					readers[fr.Decl.Name.Name] = true
 				}
@@ -1274,7 +1277,7 @@ func c07OverrideKeys(c *Ctx, pk, pa *packages.Package, nodeIface, termIface *typ
 			return true
 		})
 	}
-	okReaders := len(readers) == 2 && readers["nodeInfo"] && readers["setTrailingComments"]
+	okReaders := len(readers) == 2 && readers[c07Reader] && readers[c07Setter]
 	c.Ob(rule, "map-accessors", set.Decl.Pos(), okReaders, true, "overrideTrailingComments is touched only by nodeInfo (read) and setTrailingComments (write): %v", sortedBoolKeys(readers))
 
 	for _, name := range sortedKeys(compositeKeys) {
@@ -1323,7 +1326,7 @@ func c07OverrideKeys(c *Ctx, pk, pa *packages.Package, nodeIface, termIface *typ
 							if c07Forwarders[fn.Name()] && strings.HasSuffix(fn.Name(), "Close") {
 								refsLast = true
 							}
-							if fn.Name() == "nodeInfo" {
+							if fn.Name() == c07Reader {
 								consults = true
 							}
 						}
@@ -1656,4 +1659,41 @@ func lessReflexive(info *types.Info, lit *ast.FuncLit, iName, jName string) (str
 	}
 	v, w, _ := run(lit.Body.List)
 	return v, w
+}
+
+// c07OverrideNames finds, by type and use rather than by name, the formatter's override map (a struct field of type
+// map[ast.Node]ast.Comments), the function that writes it and the function that reads it.
+func c07OverrideNames(p *Prog, pk *packages.Package) (field, setter, reader string) {
+	info := pk.TypesInfo
+	isOverrideMap := func(t types.Type) bool {
+		mt, ok := t.Underlying().(*types.Map)
+		return ok && namedName(mt.Key()) == "Node" && namedName(mt.Elem()) == "Comments"
+	}
+	for _, fr := range p.FuncsOf(pk) {
+		if fr.Decl.Body == nil {
+			continue
+		}
+		ast.Inspect(fr.Decl.Body, func(n ast.Node) bool {
+			ix, ok := n.(*ast.IndexExpr)
+			if !ok {
+				return true
+			}
+			sel, ok := ast.Unparen(ix.X).(*ast.SelectorExpr)
+			if !ok || !isOverrideMap(info.TypeOf(sel)) {
+				return true
+			}
+			field = sel.Sel.Name
+			if as, ok := p.Parent(ix).(*ast.AssignStmt); ok {
+				for _, l := range as.Lhs {
+					if l == ast.Expr(ix) {
+						setter = fr.Decl.Name.Name
+						return true
+					}
+				}
+			}
+			reader = fr.Decl.Name.Name
+			return true
+		})
+	}
+	return
 }
